@@ -278,7 +278,9 @@ func (m *MemoryBackend) Subscribe(client *Client, subs []packet.Subscription, ac
 
 	// save subscription
 	for _, sub := range subs {
-		sess.subscriptions.Set(sub.Topic, &sub)
+		// store a copy as the loop variable is reused between iterations
+		stored := sub
+		sess.subscriptions.Set(sub.Topic, &stored)
 	}
 
 	// call ack if provided
